@@ -205,7 +205,7 @@ def step (st : St) (line : String) : St × String :=
         | .error e => (st, errStr e)
       | none => bad
     | _, _, _, _, _ => bad
-  | ["new", sid, side, pid, pw, idA, idB, ent] =>
+  | ["new", sid, side, pid, pw, idA, idB, ent] | ["newfalsy", sid, side, pid, pw, idA, idB, ent] =>
     match nat? sid, parseSide side, nat? pid, parseHex pw, parseHex idA, parseHex idB, parseHex ent with
     | some sid, some side, some pid, some pw, some idA, some idB, some ent =>
       let r := sysStep st pid sid (.new side pid pw idA idB ⟨ent⟩)
